@@ -168,7 +168,7 @@ func init() {
 		}
 	}
 	libModels["sort.Ints"] = func(tr *FnTr, x ssa.Value, a []Val, cc *ssa.CallCommon) Val {
-		tr.usedModel("sort.Ints (the elements of the slice are overwritten: ascending order, each within the range of the old values' type; nothing else is written)")
+		tr.usedModel("sort.Ints (the elements of the slice are overwritten with values in ascending order; nothing else is written; that the result is a permutation of the input is not modelled)")
 		buf := a[0]
 		lo, hi := buf.L[1], Add(buf.L[1], buf.L[2])
 		tr.havocCells(buf.L[0], lo, hi, "sort")
